@@ -166,9 +166,51 @@ func (pc *posChecker) check(at string, p ast.SourcePos) {
 	}
 	if p.Col != pc.pt.col[off] {
 		pc.bad = true
-		pc.r.Violation("pos.col-mismatch", fmt.Sprintf("at=%s line-before-offset=%s", at, lineFlavor(pc.data, off)), pc.id,
-			pc.witness(map[string]any{"offset": off, "line": p.Line, "reported_col": p.Col, "reference_col": pc.pt.col[off]}))
+		pc.r.Violation("pos.col-mismatch", pc.colCulprit(off), pc.id,
+			pc.witness(map[string]any{"observed_at": at, "offset": off, "line": p.Line, "reported_col": p.Col, "reference_col": pc.pt.col[off], "line_holds": lineFlavor(pc.data, off)}))
 	}
+}
+
+// colCulprit names the character after which the column first goes wrong on
+// the line of off (needs the lexer's FileInfo; otherwise the line's content
+// class is used).
+func (pc *posChecker) colCulprit(off int) string {
+	s := off
+	for s > 0 && pc.data[s-1] != '\n' {
+		s--
+	}
+	if pc.fi != nil {
+		prev := s
+		for o := s; o <= off; o++ {
+			if !pc.pt.bound[o] {
+				continue
+			}
+			var p ast.SourcePos
+			if pv, _ := vlib.Try(func() { p = pc.fi.SourcePos(o) }); pv != nil {
+				break
+			}
+			if p.Col != pc.pt.col[o] {
+				if o == s {
+					return "column wrong at the start of a line"
+				}
+				c := pc.data[prev]
+				switch {
+				case c == '\t':
+					return "column wrong after a tab"
+				case c == '\r':
+					return "column wrong after a CR"
+				case c >= 0x80:
+					return fmt.Sprintf("column wrong after a %d-byte character", o-prev)
+				case c < 0x20 || c == 0x7f:
+					return "column wrong after a control character"
+				default:
+					return "column wrong after an ASCII character"
+				}
+			}
+			prev = o
+		}
+	}
+	return "column wrong on a line holding " + lineFlavor(pc.data, off)
 }
 
 func clampInt(v, lo, hi int) int {
